@@ -4,12 +4,19 @@ package cli
 
 import (
 	"bytes"
+	"context"
 	"fmt"
 	"io"
 	"io/fs"
+	"os"
+	"strings"
 
 	"github.com/pulumi/esc"
+	"github.com/pulumi/esc/cmd/esc/cli/client"
 	"github.com/pulumi/esc/cmd/esc/cli/workspace"
+	"github.com/pulumi/pulumi/pkg/v3/backend/display"
+	"github.com/pulumi/pulumi/sdk/v3/go/common/diag/colors"
+	pworkspace "github.com/pulumi/pulumi/sdk/v3/go/common/workspace"
 )
 
 // Verification hook for property C17 (build tag "verif", add-only): reach the unexported renderValue — the function
@@ -46,4 +53,101 @@ func VerifC17Render(e *esc.Environment, format string, pretend, showSecrets bool
 	var out bytes.Buffer
 	err := cmd.renderValue(&out, e, nil, format, pretend, showSecrets)
 	return out.String(), vfs.created, err
+}
+
+// ---- the whole command, in process ---------------------------------------------------------------------------------
+//
+// VerifC17Run runs `esc <args...>` (cli.New + cobra, exactly the code path of the binary) against the caller's backend
+// client, with an in-memory file system that names temporary files <tempPrefix>esc-<n>, a logged-in account and an
+// empty process environment.  It returns what the command wrote to stdout and stderr, the temporary files it created
+// and its error.  This is how the flags that `esc env get` / `esc env open` / `esc open` pass to renderValue
+// (pretend, showSecrets) become observable.
+
+type verifC17CmdFS struct {
+	verifC17FS
+	files map[string][]byte
+}
+
+func (f *verifC17CmdFS) MkdirAll(name string, perm fs.FileMode) error { return nil }
+
+func (f *verifC17CmdFS) LockedRead(name string) ([]byte, error) {
+	b, ok := f.files[name]
+	if !ok {
+		return nil, &fs.PathError{Op: "open", Path: name, Err: fs.ErrNotExist}
+	}
+	return append([]byte(nil), b...), nil
+}
+
+func (f *verifC17CmdFS) LockedWrite(name string, content io.Reader, perm os.FileMode) error {
+	b, err := io.ReadAll(content)
+	if err != nil {
+		return err
+	}
+	f.files[name] = b
+	return nil
+}
+
+var verifC17Account = pworkspace.Account{Username: "test-user", AccessToken: "access-token"}
+
+const verifC17Backend = "https://api.pulumi.com"
+
+type verifC17Login struct{}
+
+func (verifC17Login) Current(ctx context.Context, cloudURL string, insecure, setCurrent bool) (*pworkspace.Account, error) {
+	a := verifC17Account
+	return &a, nil
+}
+
+func (verifC17Login) Login(ctx context.Context, cloudURL string, insecure bool, command string, message string,
+	welcome func(display.Options), current bool, opts display.Options) (*pworkspace.Account, error) {
+	a := verifC17Account
+	return &a, nil
+}
+
+type verifC17Workspace struct{}
+
+func (verifC17Workspace) DeleteAccount(backendURL string) error                   { return nil }
+func (verifC17Workspace) DeleteAllAccounts() error                                { return nil }
+func (verifC17Workspace) SetBackendConfigDefaultOrg(backendURL, org string) error { return nil }
+func (verifC17Workspace) GetPulumiConfig() (pworkspace.PulumiConfig, error) {
+	return pworkspace.PulumiConfig{}, nil
+}
+func (verifC17Workspace) GetPulumiPath(elem ...string) (string, error) {
+	return "home/.pulumi/" + strings.Join(elem, "/"), nil
+}
+func (verifC17Workspace) StoreAccount(k string, a pworkspace.Account, c bool) error { return nil }
+func (verifC17Workspace) GetAccount(key string) (pworkspace.Account, error) {
+	return verifC17Account, nil
+}
+func (verifC17Workspace) GetStoredCredentials() (pworkspace.Credentials, error) {
+	return pworkspace.Credentials{Current: verifC17Backend,
+		Accounts: map[string]pworkspace.Account{verifC17Backend: verifC17Account}}, nil
+}
+
+type verifC17Environ struct{}
+
+func (verifC17Environ) Get(key string) string { return "" }
+func (verifC17Environ) Vars() []string        { return nil }
+
+func VerifC17Run(c client.Client, args []string, tempPrefix string) (stdout, stderr string, created []string, err error) {
+	vfs := &verifC17CmdFS{verifC17FS: verifC17FS{prefix: tempPrefix}, files: map[string][]byte{}}
+	var so, se bytes.Buffer
+	cmd := New(&Options{
+		Stdin:           strings.NewReader(""),
+		Stdout:          &so,
+		Stderr:          &se,
+		Colors:          colors.Never,
+		Login:           verifC17Login{},
+		PulumiWorkspace: verifC17Workspace{},
+		fs:              vfs,
+		environ:         verifC17Environ{},
+		newClient:       func(_, _, _ string, _ bool) client.Client { return c },
+	})
+	cmd.SetArgs(args)
+	cmd.SetIn(strings.NewReader(""))
+	cmd.SetOut(&so)
+	cmd.SetErr(&se)
+	cmd.SilenceErrors = true
+	err = cmd.Execute()
+	return so.String(), se.String(), vfs.created, err
 }
